@@ -598,6 +598,10 @@ fn c19_post(plan: &mut LPlan, seed: u64) {
             plan.actions.push(TimedAction { t: r.range(lo, hi), kind: Action::BindFail { link, on: false } });
         }
     }
+    // the receiver named by host name or short form instead of an IPv4 literal
+    if r.chance(0.3) {
+        plan.receiver_host = r.pick(&["localhost", "127.1"]).to_string();
+    }
     // duplicates among the existing links
     if r.chance(0.2) && plan.n_links >= 2 {
         let mut ips: Vec<String> = (0..plan.n_links).map(|i| crate::lsim::path_ip(i).to_string()).collect();
